@@ -20,12 +20,19 @@ package fence
 import (
 	"context"
 	"database/sql"
+	"errors"
 	"fmt"
 
 	"seata.apache.org/seata-go/pkg/rm/tcc/fence/enum"
 	"seata.apache.org/seata-go/pkg/rm/tcc/fence/handler"
 	"seata.apache.org/seata-go/pkg/tm"
 )
+
+// ErrPhaseAlreadyApplied is what the fence driver answers a BeginTx with when the fence says that the business
+// method of the delivery must not run: the phase has been applied before (a second commit, a second rollback),
+// or it is a rollback whose try never ran. There is nothing to do and nothing went wrong: a commit or rollback
+// method that returns it (wrapped or not) is answered to the coordinator as done.
+var ErrPhaseAlreadyApplied = errors.New("tcc fence: the phase has been applied before or its try never ran, nothing to do")
 
 // WithFence Execute the fence database operation first and then call back the business method
 func WithFence(ctx context.Context, tx *sql.Tx, callback func() error) (err error) {
